@@ -407,18 +407,34 @@ def r05_7(ctx):
         mixed = [lp for lp in inherit if any(isinstance(n, ast.Assign) and ast.unparse(n.targets[0]) == "choice.orig_type" for n in ast.walk(lp))]
         (ctx.bad(construct, "the loop that hands the choice's type to untyped members also *determines* that type: members before the first typed "
                  "one are visited while the type is still unknown and stay untyped", fc.loc(mixed[0])) if mixed else ctx.ok(construct, fc.loc(inherit[0])))
-    rp = repo.func(f"{CORE}:_recursively_perform_action.<locals>.rec")
-    ctx.analysed(rp.qual)
-    fl2 = Flow(rp.node, resolver=Resolver(rp.node)).run()
-    for fld, allowed in (("list", {"node.list"}), ("next", {"node.next", "node != start_node", "node == start_node"})):
-        calls = [n for n in ast.walk(rp.node) if isinstance(n, ast.Call) and ast.unparse(n.func) == "rec" and n.args and ast.unparse(n.args[0]) == f"node.{fld}"]
-        construct = f"_recursively_perform_action/descends into node.{fld} whatever the node is"
-        if not calls:
-            ctx.bad(construct, f"no recursion into node.{fld}", rp.loc())
-            continue
-        extra = sorted(k for k, p in (fl2.guards_at(calls[0]) or set()) if k not in allowed)
-        (ctx.bad(construct, f"the recursion is additionally guarded by {extra}: nodes below such a node (e.g. a choice nested in a choice) are never reset",
-                 rp.loc(calls[0])) if extra else ctx.ok(construct, rp.loc(calls[0])))
+    # every step of the walk along `.list` / `.next` (recursive call or cursor assignment, in whichever nested walker) depends
+    # only on the link being there and on the start-node test - not on what kind of node it is
+    rpo = repo.func(f"{CORE}:_recursively_perform_action")
+    ctx.analysed(rpo.qual)
+    walkers = [n for n in ast.walk(rpo.node) if isinstance(n, ast.FunctionDef)]
+    found = {"list": False, "next": False}
+    for w in walkers:
+        fl2 = Flow(w, resolver=Resolver(w)).run()
+        names = {n.name for n in walkers}
+        for n in ast.walk(w):
+            link = None
+            if isinstance(n, ast.Call) and isinstance(n.func, ast.Name) and n.func.id in names and n.args and isinstance(n.args[0], ast.Attribute) \
+                    and n.args[0].attr in ("list", "next") and repo.enclosing_func(n) is not None and repo.enclosing_func(n).node is w:
+                link, cur = n.args[0].attr, ast.unparse(n.args[0].value)
+            elif isinstance(n, ast.Assign) and len(n.targets) == 1 and isinstance(n.targets[0], ast.Name) and isinstance(n.value, ast.Attribute) \
+                    and n.value.attr in ("list", "next") and ast.unparse(n.value.value) == n.targets[0].id:
+                link, cur = n.value.attr, n.targets[0].id
+            if link is None or (cur == "start_node" and w is rpo.node):
+                continue
+            found[link] = True
+            construct = f"_recursively_perform_action/descends into node.{link} whatever the node is"
+            extra = sorted(k for k, p in (fl2.guards_at(n) or set())
+                           if not (k in (cur, f"{cur}.{link}", f"{cur}.list", f"{cur}.next", "True", "1") or "start_node" in k))
+            (ctx.bad(construct, f"the step is additionally guarded by {extra}: nodes below such a node (e.g. a choice nested in a choice) are never reset",
+                     rpo.loc(n)) if extra else ctx.ok(construct, rpo.loc(n)))
+    for link, ok_ in found.items():
+        if not ok_:
+            ctx.bad(f"_recursively_perform_action/descends into node.{link} whatever the node is", f"no step into node.{link}", rpo.loc())
 
 
 def r05_8(ctx):
